@@ -40,6 +40,41 @@ def find_leading_zero_keys(curve_name, want, start=1):
     return out
 
 
+BOUNDARY_VALUES = (0x00, 0x04, 0x02, 0x03, 0x0A, 0x20, 0x30, 0xFF)
+
+
+def find_boundary_keys(curve_name, limit):
+    """private scalars whose public X or Y begins or ends with a byte value that encodings treat specially (0x00 leading zero, 0x04/0x02/0x03
+    SEC1 point markers, 0x0a/0x20 white space, 0x30 DER sequence, 0xff): one key per (coordinate end, value) found among the first `limit` scalars"""
+    w = CURVES[curve_name]
+    found = {}
+    for d in range(1, limit + 1):
+        n = nist_key(curve_name, d).public_key().public_numbers()
+        xb, yb = n.x.to_bytes(w, "big"), n.y.to_bytes(w, "big")
+        for pos, val in (("x-first", xb[0]), ("x-last", xb[-1]), ("y-first", yb[0]), ("y-last", yb[-1])):
+            if val in BOUNDARY_VALUES and (pos, val) not in found:
+                found[(pos, val)] = d
+    return found
+
+
+def der_exact(b: bytes) -> bool:
+    """one DER TLV that spans the whole file"""
+    if len(b) < 2:
+        return False
+    if b[1] < 0x80:
+        return 2 + b[1] == len(b)
+    k = b[1] & 0x7F
+    if k == 0 or len(b) < 2 + k:
+        return False
+    return 2 + k + int.from_bytes(b[2:2 + k], "big") == len(b)
+
+
+def pem_exact(b: bytes) -> bool:
+    """exactly one armoured block, nothing after the END line"""
+    t = b.decode("ascii", "replace")
+    return t.count("-----BEGIN ") == 1 and t.count("-----END ") == 1 and t.startswith("-----BEGIN ") and re.fullmatch(r"-----END [A-Z ]+-----\n?", t[t.index("-----END "):]) is not None
+
+
 def pem_of(key):
     from cryptography.hazmat.primitives import serialization
     return key.private_bytes(serialization.Encoding.PEM, serialization.PrivateFormat.PKCS8, serialization.NoEncryption())
@@ -62,6 +97,8 @@ def convert_cases(res, drv, rng, tier, d):
     for cn in CURVES:
         for dd in find_leading_zero_keys(cn, 3 if tier == "quick" else 25):
             keys.append((f"{cn}:leading-zero", nist_key(cn, dd)))
+        for (pos, val), dd in sorted(find_boundary_keys(cn, 700 if tier == "quick" else 6000).items()):
+            keys.append((f"{cn}:{pos}=0x{val:02x}", nist_key(cn, dd)))
         for _ in range(4 if tier == "quick" else 150):
             keys.append((cn, nist_key(cn, rng.randrange(1, 2 ** 200))))
     for _ in range(3 if tier == "quick" else 60):
@@ -91,7 +128,9 @@ def convert_cases(res, drv, rng, tier, d):
                 res.spec_failures.append({"key": kind, "options": opts, "what": "convert failed: " + type(e).__name__})
                 continue
             res.case(["convert", kind, i, rep, sorted(opts.items()), header, footer])
-            res.count("convert:" + kind)
+            res.count("convert:" + kind.split("=")[0].split(":x-")[0].split(":y-")[0])
+            if "=0x" in kind:
+                res.count("convert:boundary-byte-keys")
             model = drv.call({"op": "convert.file", "array_type": opts["array_type"], "array_name": opts["array_name"], "length_type": opts["length_type"],
                               "length_name": opts["length_name"], "cols": opts["columns_count"], "indent": opts["indentation_count"], "tab": opts["indentation_tab"],
                               "no_length": opts["no_length"], "no_const": opts["no_const"], "header": header, "footer": footer, "data": exp.hex()})["ok"]
@@ -134,6 +173,12 @@ def keys_cases(res, rng, tier, d):
                         prefix = os.path.join(d, f"k_{ktype}_{enc}_{pf}_{pubf}_{rep}")
                         privp, pubp = f"{prefix}_priv.{enc}", f"{prefix}_pub.{enc}"
                         res.case(["keys", ktype, enc, pf, pubf, rep], nontrivial=True)
+                        preexisting = (rep + len(ktype) + len(pf)) % 2 == 0
+                        if preexisting:
+                            # the output names already exist and are longer than anything the command writes (an earlier, larger key)
+                            for p in (privp, pubp):
+                                with open(p, "wb") as fh:
+                                    fh.write(b"-----BEGIN OLD-----\n" + b"A" * 3000 + b"\n-----END OLD-----\n")
                         try:
                             cmd_keys.main(output_file=prefix, type=ktype, encoding=enc, private_format=pf, public_format=pubf, encryption="none")
                             outcome = "ok"
@@ -144,6 +189,11 @@ def keys_cases(res, rng, tier, d):
                         res.count(f"keys:{ktype}:{pf}:{pubf}:{outcome}")
                         wrote = [p for p in (privp, pubp) if os.path.exists(p)]
                         if outcome == "GeneratorError":
+                            if preexisting:
+                                wrote = [p for p in wrote if not open(p, "rb").read().startswith(b"-----BEGIN OLD-----")]
+                                for p in (privp, pubp):
+                                    if os.path.exists(p):
+                                        os.unlink(p)
                             if wrote:
                                 res.spec_failures.append({"combination": [ktype, enc, pf, pubf], "files": wrote, "what": "unsupported combination reported but files were written"})
                             continue
@@ -153,6 +203,12 @@ def keys_cases(res, rng, tier, d):
                         if len(wrote) != 2:
                             res.spec_failures.append({"combination": [ktype, enc, pf, pubf], "files": wrote, "what": "not both key files written"})
                             continue
+                        res.count("keys:preexisting-files:" + str(preexisting))
+                        for p in wrote:
+                            fb = open(p, "rb").read()
+                            if not (pem_exact(fb) if enc == "pem" else der_exact(fb)):
+                                res.spec_failures.append({"combination": [ktype, enc, pf, pubf], "file": os.path.basename(p), "length": len(fb), "preexisting_file": preexisting,
+                                                          "what": "the key file is not exactly one " + enc.upper() + " object (bytes before or after it)"})
                         try:
                             pb, ub = open(privp, "rb").read(), open(pubp, "rb").read()
                             priv = (serialization.load_pem_private_key if enc == "pem" else serialization.load_der_private_key)(pb, None)
